@@ -80,10 +80,9 @@ func (self *Core) runInstruction(instruction compiler.Instruction) *value.VmInte
 
 		// TODO: how to handle the debugger
 		vh("SpawnBy", int64(self.Corenum), i.Value)
-		self.parent.spawnCoreInternal(i.Value, args, nil, nil, true, nil)
+		thread := self.parent.spawnCoreInternal(i.Value, args, nil, nil, true, nil)
 		// TODO: implement a wrapper around the threading model and add it to a std-lib
-		// TODO: get thread handle and push it onto the stack
-		self.push(value.NewValueNull())
+		self.push(threadHandle(thread))
 	case compiler.Opcode_Call_Val:
 		numberArgsRaw := *self.pop()
 		numArgs := numberArgsRaw.(value.ValueInt).Inner
